@@ -146,6 +146,26 @@ def stat_statements(rng, tables, R):
     out.append((f"SELECT s.{cn[0]} FROM (SELECT {cn[0]} FROM {ta['name']} ORDER BY {cn[0]} LIMIT 2) AS s WHERE s.{cn[0]} > 1", "filter-over-limit"))
     return out
 
+def shared_name_family(rng):
+    """three extra tables whose column names COLLIDE (id / ref_id on both join inputs), and statements in which a rewrite has to
+    keep the qualifier to stay well-formed: IN / EXISTS / NOT EXISTS over a join keyed on either input, filters and grouping on
+    the shared names, a self-join (added after seeded change seeded/C31: a semi join pushed to the wrong join input)"""
+    def t(name, cols):
+        n = rng.choice([2, 3, 5])
+        rows = [[rng.choice([0, 1, 2, 3, 4]) for _ in cols] for _ in range(n)]
+        return {"name": name, "types": ["i64"] * len(cols), "rows": rows, "colnames": cols, "batch_sizes": None}
+    tabs = [t("ua", ["id", "ref_id", "x"]), t("ub", ["id", "ref_id", "y"]), t("uc", ["cid", "id"])]
+    side, other = rng.choice([("ub", "ua"), ("ua", "ub")])
+    on = rng.choice(["ua.id = ub.ref_id", "ua.ref_id = ub.id", "ua.id = ub.id"])
+    neg = rng.choice(["", "NOT "])
+    qs = [(f"SELECT ua.x, ub.y FROM ua JOIN ub ON {on} WHERE {side}.id {neg}IN (SELECT cid FROM uc)", "shared-in"),
+          (f"SELECT ua.x, ub.y FROM ua JOIN ub ON {on} WHERE {neg}EXISTS (SELECT 1 FROM uc WHERE uc.cid = {side}.id)", "shared-exists"),
+          (f"SELECT ua.x, ub.y FROM ua JOIN ub ON {on} WHERE {side}.id IN (SELECT id FROM uc) AND {other}.id >= 1", "shared-in-samecol"),
+          (f"SELECT ua.id, ub.id, COUNT(*) AS n FROM ua JOIN ub ON {on} WHERE ub.id > 0 AND ua.id < 4 GROUP BY ua.id, ub.id", "shared-group"),
+          (f"SELECT p.id, q.id FROM ua AS p JOIN ua AS q ON p.ref_id = q.id WHERE q.id IN (SELECT cid FROM uc)", "shared-selfjoin-in"),
+          (f"SELECT ua.x FROM ua JOIN ub ON {on} JOIN uc ON uc.id = {side}.id WHERE {other}.id IN (SELECT cid FROM uc)", "shared-join3-in")]
+    return tabs, qs
+
 def run(ctx):
     proved = ctx.prove()
     rules, max_iter, final = optgen.read_rule_list()
@@ -160,6 +180,9 @@ def run(ctx):
             q, kind = optgen.gen_general(ctx.rng, tables)
             qs.append((R.to_sql(q), kind))
         qs += stat_statements(ctx.rng, tables, R)
+        stabs, sqs = shared_name_family(ctx.rng)
+        qs += sqs
+        tables = tables + stabs
         cases.append({"tables": [optgen.table_spec(t) for t in tables], "queries": [s for s, _ in qs], "rules": rules, "run": True})
         meta.append(qs)
     outs = vlib.run_harness("c31", cases, timeout=3000)
